@@ -97,6 +97,16 @@ UNMARSHAL_DISPATCH_TABLE = {
 }
 
 
+class _Null:
+    """Stands for marshal's TYPE_NULL ('0'), the C NULL pointer."""
+
+    def __repr__(self):
+        return "<NULL>"
+
+
+_NULL = _Null()
+
+
 def compat_str(s: Union[str, bytes]) -> Union[str, bytes]:
     """
     This handles working with strings between Python2 and Python3.
@@ -238,10 +248,9 @@ class _VersionIndependentUnmarshaller:
 
         return
 
-    # In C this NULL. Not sure what it should
-    # translate here. Note NULL != None which is below
+    # In C this is NULL, which is distinct from None: it ends a dictionary.
     def t_C_NULL(self, save_ref, bytes_for_s=False):
-        return None
+        return _NULL
 
     def t_None(self, save_ref, bytes_for_s=False):
         return None
@@ -430,10 +439,11 @@ class _VersionIndependentUnmarshaller:
         # dictionary
         while True:
             key = self.r_object(bytes_for_s=bytes_for_s)
-            if key is None:
+            # Only TYPE_NULL ends the dictionary; None is a legal key and value.
+            if key is _NULL:
                 break
             val = self.r_object(bytes_for_s=bytes_for_s)
-            if val is None:
+            if val is _NULL:
                 break
             ret[key] = val
             pass
